@@ -13,10 +13,18 @@ import (
 )
 
 const (
-	repoDir  = "/repo"
-	verifDir = "/verif"
-	modPath  = "github.com/cosmos/cosmos-proto"
+	repoDir = "/repo"
+	modPath = "github.com/cosmos/cosmos-proto"
 )
+
+// verifDir is where the harness sources, evidence and replay files live: the
+// directory of the check script (normally /verif; a snapshot under vp run).
+var verifDir = func() string {
+	if d := os.Getenv("VERIF_DIR"); d != "" {
+		return d
+	}
+	return "/verif"
+}()
 
 // harnessError is trouble of the machinery itself: exit 2, never VIOLATION.
 type harnessError struct{ msg string }
